@@ -39,6 +39,7 @@ JMeshClosest(r, vp, j) ==
     /\ D2Matches(oq.pc.dq2, MeshMinD2(q, vp, r.faces))
     \* the measured deviation: its reference point is a closest point and its magnitude the closest distance
     /\ D2Matches(oq.dev.dq2, MeshMinD2(q, vp, r.faces)) /\ D2Matches(oq.dev.a, MeshMinD2(q, vp, r.faces))
+    /\ D2Matches(oq.dev.apl, MeshMinD2(q, vp, r.faces))          \* (plane mode: same reference point)
 JMeshCapped(r, vp, j) ==
     LET q == r.qs[j] oq == r.out.q[j] fs == r.faces m == MeshMinD2(q, vp, fs) IN
     /\ Len(oq.capped) = Len(r.caps)
